@@ -94,6 +94,9 @@ func runC08(seed int64, n int, long bool) {
 		runC08ReadInterleave(seed, rounds)
 	}
 	if len(sum.Failures) == 0 {
+		runC08StoreInterleave()
+	}
+	if len(sum.Failures) == 0 {
 		runC08CommandInterleave()
 	}
 	if len(sum.Failures) == 0 {
